@@ -1079,11 +1079,20 @@ def evaluate(cases, runner, timeout=20.0):
     for i in redo[:50]:
         res[i] = common.run_harness(common.harness_bin("prog"), [{"id": 0, "fuel": IMPL_FUEL, "fresh": False, "src": srcs[i]}],
                                     timeout=180.0, workers=1)[0]
+    # the same programs the way the command-line interpreter runs them (src/main.rs): through noulith::warn,
+    # the static name-resolution pass over the whole program, and then evaluate.  No name the generator
+    # declares with := is a global, so the pass must not change what a program does.
+    res_cli = common.run_prog(srcs, timeout=timeout, fuel=IMPL_FUEL, cli=True)
+    for i, r in enumerate(res_cli):
+        if r.get("status") in ("hang", "abort", "badjson") and i not in redo[50:]:
+            res_cli[i] = common.run_harness(common.harness_bin("prog"), [{"id": 0, "fuel": IMPL_FUEL, "fresh": False, "cli": True, "src": srcs[i]}],
+                                            timeout=180.0, workers=1)[0]
     rows = []
     todo = []
-    for e, s, r in zip(cases, srcs, res):
+    for e, s, r, rc in zip(cases, srcs, res, res_cli):
         io = impl_obs(r)
-        row = {"ast": e, "src": s, "impl": io, "model": None, "msg": r.get("msg")}
+        ic = impl_obs(rc)
+        row = {"ast": e, "src": s, "impl": io, "impl_cli": ic, "model": None, "msg": r.get("msg")}
         rows.append(row)
         if io[0] != "fuel":
             todo.append(row)
@@ -1107,6 +1116,11 @@ def evaluate(cases, runner, timeout=20.0):
             row["verdict"] = "runner-bug"
         else:
             row["verdict"] = "agree" if same(io, mo) else "disagree"
+        ic = row["impl_cli"]
+        if row["verdict"] == "agree" and ic[0] != "fuel" and not same(ic, mo):
+            # evaluate alone agrees with the reference interpreter; evaluate after the command line's warn pass does not
+            row["verdict"] = "crash" if ic[0] in ("panic", "hang", "abort", "badjson") else "disagree"
+            row["impl_plain"], row["impl"], row["cli"] = io, ic, True
     return rows
 
 
@@ -1168,6 +1182,9 @@ def report(ctx, rows, runner):
         seen.add(key)
         replay = {"program": row["src"], "model_term": sx(row["ast"]), "ast": row["ast"], "implementation": row["impl"],
                   "implementation_msg": row.get("msg"), "reference_interpreter": row["model"]}
+        if row.get("cli"):
+            replay["path"] = ("run as src/main.rs runs a program: noulith::warn (static freeze pass) then evaluate; "
+                              "evaluate alone gives " + json.dumps(row.get("impl_plain")))
         if v == "crash":
             replay["what"] = "the implementation panicked / aborted / hung on a terminating program of the C05 vocabulary"
             ctx.violation("property", replay, found=True)
@@ -1179,6 +1196,36 @@ def report(ctx, rows, runner):
             replay["what"] = "driver problem (renderer produced a program the parser rejects, or the model runner failed): no failing input"
             ctx.violation("correspondence", replay, found=False)
     return bad
+
+
+def shadow_idioms():
+    """scoped binders (catch variable, catch pattern names, lambda parameter with and without default, splat parameter,
+    for variable, <<- pair, for-clause declaration, switch binding) named after GLOBAL functions and read only inside
+    their scope, also from a closure that escapes it: the binder shadows the global, for evaluate and for the
+    command line's static pass alike"""
+    G = ["count", "max", "id", "words", "sum", "first", "min", "last"]
+    out = []
+    for k, g in enumerate(G):
+        h = G[(k + 3) % len(G)]
+        v = 10 + k
+        out += [
+            ("try", ("throw", I(v)), g, P("add", V(g), I(1))),
+            SEQ(("decl", "mk", ("lam", [], ("try", ("throw", I(v)), g, ("lam", [("p", "d")], P("add", V(g), V("d")))))),
+                ("decl", "f", ("call", V("mk"), [])), ("call", V("f"), [I(5)])),
+            ("tryp", ("throw", ("list", [I(v), I(2)])), ("names", g, h), P("add", V(g), V(h))),
+            ("tryp", ("throw", I(v)), ("name", g), P("mul", V(g), I(2))),
+            SEQ(("decl", "f", ("lam", [("p", g)], P("add", V(g), I(1)))), ("call", V("f"), [I(v)])),
+            SEQ(("decl", "f", ("lam", [("p", "x"), ("def", g, I(3))], P("add", V(g), V("x")))), P("add", ("call", V("f"), [I(v)]), ("call", V("f"), [I(1), I(2)]))),
+            SEQ(("decl", "f", ("lam", [("splat", g)], P("len", V(g)))), ("call", V("f"), [I(1), I(v)])),
+            ("for", [("it", g, ("list", [I(1), I(v)]))], ("yield", P("mul", V(g), I(2)))),
+            ("for", [("item", g, h, ("list", [I(7), I(v)]))], ("yield", P("add", V(g), V(h)))),
+            ("for", [("it", "x", ("list", [I(1), I(v)])), ("let", g, P("add", V("x"), I(1)))], ("yield", V(g))),
+            SEQ(("decl", "fs", ("for", [("it", g, ("list", [I(1), I(v)]))], ("yield", ("lam", [], V(g))))),
+                ("for", [("it", "f", V("fs"))], ("yield", ("call", V("f"), [])))),
+            ("switch", I(v), [(("lit", 0), I(0)), (("bind", g), P("add", V(g), I(1)))]),
+            ("try", ("for", [("it", g, ("list", [I(1), I(v)]))], ("do", ("throw", V(g)))), h, P("add", V(h), I(100))),
+        ]
+    return out
 
 
 def nontrivial(e, feats):
@@ -1194,7 +1241,7 @@ def run(ctx):
     for f in sorted(cdir.glob("C05-*.json")):
         corpus.append(tuplify(json.loads(f.read_text())["ast"]))
     n = ctx.n(1500, 40000)
-    progs = corpus + [gen_program(rng) for _ in range(n)]
+    progs = corpus + shadow_idioms() + [gen_program(rng) for _ in range(n)]
     small = small_programs(4)
     if not ctx.quick():       # level 5 has ~626 000 programs: a seeded sample of 150 000 of them
         small = small + rng.sample(small_level(5), 150000)
